@@ -135,10 +135,11 @@ func VerifMaxNeighbors() int { return maxNeighbors }
 // ---- a udp transport over a fake socket, for handlePacket
 
 type verifConn struct {
-	mu     sync.Mutex
-	closed chan struct{}
-	once   sync.Once
-	Sent   int
+	mu      sync.Mutex
+	closed  chan struct{}
+	once    sync.Once
+	Sent    int
+	packets [][]byte // copies of what was written (bounded)
 }
 
 func (c *verifConn) ReadFromUDP(b []byte) (int, *net.UDPAddr, error) {
@@ -148,6 +149,9 @@ func (c *verifConn) ReadFromUDP(b []byte) (int, *net.UDPAddr, error) {
 func (c *verifConn) WriteToUDP(b []byte, addr *net.UDPAddr) (int, error) {
 	c.mu.Lock()
 	c.Sent++
+	if len(c.packets) < 4096 {
+		c.packets = append(c.packets, append([]byte(nil), b...))
+	}
 	c.mu.Unlock()
 	return len(b), nil
 }
@@ -193,3 +197,45 @@ func (u *VerifUDP) Sent() int {
 	return u.conn.Sent
 }
 func (u *VerifUDP) Close() { u.t.Table.Close() } // the table's loop closes the transport itself
+
+// ---- lifetime of delivered data (C17 follow-up 2)
+
+// VerifDecoded keeps what decodePacket returned (request, identity, hash slice)
+// without looking at it, so that the caller can reuse the input buffer first —
+// udp.readLoop reads the next datagram into the same buffer.
+type VerifDecoded struct {
+	req       packet
+	id        NodeID
+	hash      []byte
+	HashAtRet []byte // copy of the hash taken when decodePacket returned
+	Err       bool
+}
+
+func VerifDecodePacketKeep(netcompat bool, buf []byte) *VerifDecoded {
+	req, id, hash, err := decodePacket(netcompat, buf)
+	return &VerifDecoded{req: req, id: id, hash: hash, HashAtRet: append([]byte(nil), hash...), Err: err != nil}
+}
+
+// Render inspects the kept values now: kind, identity, the hash slice as it reads now,
+// and the canonical re-encoding of the request (all fields, Nodes and Rest included).
+func (d *VerifDecoded) Render() (kind string, id NodeID, hashNow []byte, reenc []byte) {
+	if d.req != nil && !d.Err {
+		reenc, _ = rlp.EncodeToBytes(d.req)
+	}
+	return verifKind(d.req), d.id, append([]byte(nil), d.hash...), reenc
+}
+
+// SentPongTokens: the ReplyTok of every pong this transport has written so far.
+func (u *VerifUDP) SentPongTokens() [][]byte {
+	u.conn.mu.Lock()
+	pk := append([][]byte(nil), u.conn.packets...)
+	u.conn.mu.Unlock()
+	var out [][]byte
+	for _, b := range pk {
+		req, _, _, err := decodePacket(u.t.netcompat(), append([]byte(nil), b...))
+		if p, ok := req.(*pong); ok && err == nil {
+			out = append(out, append([]byte(nil), p.ReplyTok...))
+		}
+	}
+	return out
+}
